@@ -555,7 +555,38 @@ def _stub_of_earlier_request(ctx):
         ctx.violation("history-dependent:recursion-stub-of-earlier-request-reused", f"after get_loader(X) the retort loads Y as {out!r:.200}, a fresh retort as {fresh!r:.200}", {})
 
 
-DIRECTED = {"literal-bool-int-cache-key": _literal_witness, "failed-request-then-success": _failed_request_then_success,
+def _union_dump_history_fixed(ctx):
+    """The fixed form of check_union_dump_history: Union[L1, Sub] with Sub(L1), Mid(L1) and Y(Mid, Sub). Y's mro is Y, Mid, Sub, L1: it is
+    dumped by Sub's case, also after a Mid object (whose nearest listed ancestor is L1) went through the same dumper, in every order of
+    the four classes (seeded change: the class dispatcher memoised Mid -> L1 in the table the mro walk reads; at seed 2 no random hierarchy
+    had this shape)."""
+    import itertools  # noqa: PLC0415
+
+    from adaptix import dumper  # noqa: PLC0415
+
+    def cls(name, *bases):
+        return type(name, bases, {"__init__": lambda self: None, "__repr__": lambda self: type(self).__name__ + "()"})
+    L1 = cls("L1")
+    Sub, Mid = cls("Sub", L1), cls("Mid", L1)
+    Y, Z = cls("Y", Mid, Sub), cls("Z", Sub, Mid)
+    listed = [L1, Sub]
+    hint = Union[tuple(listed)]
+
+    def mk():
+        return Retort(recipe=[dumper(c, (lambda x, n=c.__name__: n)) for c in listed])
+    for order in itertools.permutations([Mid, Y, Z, Sub, L1], 3):
+        warm = mk()
+        for pos, c in enumerate(order):
+            got, want = attempt(warm.dump, c(), hint), attempt(mk().dump, c(), hint)
+            ctx.evaluated(("union-dump-history-fixed", tuple(k.__name__ for k in order[:pos + 1])), nontrivial=pos > 0)
+            ctx.count("union_dump_histories")
+            if got.kind != want.kind or (got.kind == "ok" and got.value != want.value):
+                ctx.violation("history-dependent-union-dumper", f"after dumping {[k.__name__ for k in order[:pos]]} the retort dumps {c.__name__} through Union[L1, Sub] as {got!r:.100}, a fresh retort as {want!r:.100}",
+                              {"order": [k.__name__ for k in order]})
+                return
+
+
+DIRECTED = {"union-dump-history-fixed-hierarchy": _union_dump_history_fixed, "literal-bool-int-cache-key": _literal_witness, "failed-request-then-success": _failed_request_then_success,
             "recursion-stub-of-earlier-request": _stub_of_earlier_request}
 
 
